@@ -160,6 +160,7 @@ template<typename T> typename std::enable_if<!std::is_arithmetic<T>::value, size
 
 template<typename T>
 static void case_q(Rng& r) {
+  describe(std::string(Kind<T>::name()) + "<" + Item<T>::name() + "> (generating state)");
   typedef Kind<T> K;
   typedef typename K::S S;
   typedef typename Item<T>::SerDe SD;
